@@ -95,6 +95,11 @@ def run(ctx: Context, col) -> None:
                     ok2 = ok_init
                     why2 = ("P[a, s, idx(next(s,a,e))] += p(s,a,e) for every (e, a), from zeros((A,S,S))" if ok_init else
                             f"accumulation starts from {show_norm(init)}, not zeros((A,S,S))")
+                elif any(x[0] == "app" and x[1] == "reshape" and any(y[0] in ("shape",) or (y[0] == "app" and y[1].startswith("shape")) for y in subterms(x))
+                         for x in subterms(step)):
+                    # a generic flatten / unflatten through the array's own shape is outside the kernel IR: no verdict either way
+                    raise AnalysisError("Problem.build_transition_and_reward_matrices: the accumulation step reshapes an array through its own "
+                                        "runtime shape (flatten / unflatten idiom), which the kernel IR does not follow; R17.2 cannot be decided")
                 elif step[0] == "scatter":
                     why2 = "probabilities are written with .set: two events leading to the same successor overwrite each other instead of adding up"
                 else:
